@@ -129,13 +129,15 @@ CHECKS = {
              "a first-order description of the admissible values, for all PyVal; rejected_at_finalize_only says which "
              "are checked late), model_meets_specAccept (the model's outcome satisfies the documented rule specAccept: "
              "malformed => rejected when supplied or at finalize/reset, clearly valid => accepted); box_contains_iff "
-             "characterises abmarl.tools.Box.contains on all PyVal outside the K2 exception, which box_k2_truncates "
-             "states and box_k2_witness decides; model_meets_specBox / model_meets_specOverlapSym. Tie: ~7000 "
-             "(site, value) cases on the real constructors/setters/finalize/reset, every overlap table over <=3 encodings "
-             "and random ones up to 6 on the real Grid (place then query/place), ~5000 candidate points per Box kind "
-             "(16 kinds); outcomes must equal the model's and the spec predicates are evaluated by the driver on the "
-             "implementation's outcome. The open finding K2 is reported as KNOWN-FINDING; K19a (falsy null points "
-             "unchecked at finalize) was fixed in fc3584a, its reproducers stay in the corpus as regression cases.",
+             "characterises abmarl.tools.Box.contains on all PyVal without exception, box_int_rejects_fractional (an "
+             "integer Box accepts nothing holding a non-integral float); model_meets_specBox / "
+             "model_meets_specOverlapSym. Tie: ~7000 (site, value) cases on the real constructors/setters/finalize/"
+             "reset, every overlap table over <=3 encodings and random ones up to 6 on the real Grid (place then "
+             "query/place), ~5000 candidate points per Box kind (16 kinds); outcomes must equal the model's and the "
+             "spec predicates are evaluated by the driver on the implementation's outcome. No open finding: K19a "
+             "(falsy null points unchecked at finalize, fixed fc3584a) and K2 (integer Box accepted lists/numpy "
+             "scalars after truncation, fixed 9e72b84) were found by this check; their reproducers stay in the corpus "
+             "as regression cases.",
         design="§5 C19", technique="Lean 4 proof (case analysis over a Python value universe, induction over the closure "
                                    "loops, mutual structural induction over nested lists for np.asarray) + differential "
                                    "correspondence of the hand-written model with the real setters, Grid and Box"),
